@@ -196,12 +196,17 @@ def on_path(res, pc, hyp, taken, status):
     if res is None: return dict(bad=["path ended: " + status], seq=None)
     return dict(bad=res["bad"][:3], seq=res["seq"])
 
-def replay(seq, CF):
+def replay(seq, CF, sname="dict 2x2"):
     """concrete re-execution of an operation sequence on the real class with plain float columns and a float shadow model"""
     CONCRETE[0] = True
     try:
-        cols = {"c0": np.array([3.0, 1.0, 2.0]), "c1": np.array([10.0, 30.0, 20.0])}
-        cf = CF.colfile_from_dict({k: v.copy() for k, v in cols.items()}); sh = Shadow(list(cols), [list(v) for v in cols.values()])
+        if sname.startswith("file"):
+            cf, sh = dict(start_states(CF))[sname](); CONCRETE[0] = True
+        elif sname.startswith("empty"):
+            cf = CF.newcolumnfile([]); cf.nrows = 2; sh = Shadow([], [])
+        else:
+            cols = {"c0": np.array([3.0, 1.0, 2.0])} if sname == "dict 1x3" else {"c0": np.array([3.0, 1.0, 2.0]), "c1": np.array([10.0, 30.0, 20.0])}
+            cf = CF.colfile_from_dict({k: v.copy() for k, v in cols.items()}); sh = Shadow(list(cols), [list(v) for v in cols.values()])
         O = dict(ops(3)); done = []
         def probe(cf, where):
             """write through the item view and look through the attribute view"""
@@ -261,12 +266,12 @@ def main():
             if not badp: ck.ok("%s: invariant, shadow agreement and copy independence hold on all %d paths" % (name, len(outs)))
             for o in badp:
                 key = o["bad"][0].split(": ", 1)[-1][:70]
-                allbad.setdefault(key, (name, o))
+                allbad.setdefault(key, (name, o, sname))
             ck.sample(dict(start=sname, ops=L, paths=len(outs)))
     reported = set()
-    for key, (name, o) in list(allbad.items())[:40]:
+    for key, (name, o, sname) in list(allbad.items())[:40]:
         if o["seq"] is None: ck.inconclusive.append("%s: %s" % (name, o["bad"])); continue
-        r = replay(o["seq"], CF)
+        r = replay(o["seq"], CF, sname)
         if r:
             fkey = finding_key(o["seq"], r)
             if fkey in reported: continue
